@@ -916,6 +916,37 @@ func (e *Engine) checkFrame(st *State, fr *Frame, fn *ssa.Function, c *Contract,
 	for _, fr := range e.familyRegs {
 		regByID[fr.id] = fr
 	}
+	// strict frame: a cell of a parameter / global object that is not listed in `modifies` must not be stored to
+	// at all -- not even with the value it already holds (such a store would still race with concurrent readers)
+	var wkeys []string
+	for k := range st.written {
+		wkeys = append(wkeys, k)
+	}
+	sort.Strings(wkeys)
+	for _, k := range wkeys {
+		if allowed[k] {
+			continue
+		}
+		ov, existed := old.mem.cells[k]
+		if !existed || !sameValue(st.mem.cells[k], ov) {
+			continue // reported by the value comparison below
+		}
+		id, _ := strconv.Atoi(strings.SplitN(k[1:], "/", 2)[0])
+		reg := regByID[id]
+		if reg == nil {
+			continue
+		}
+		okDyn := false
+		for _, d := range dynAllowed {
+			if d.reg.id == id {
+				okDyn = true
+			}
+		}
+		if okDyn {
+			continue
+		}
+		e.addObligation(st, fr, "frame", reg.name+"@"+k+":stored", tFalse, "cell of "+reg.name+" outside `modifies` was stored to (with the value it already had)")
+	}
 	keys := make([]string, 0, len(st.mem.cells))
 	for k := range st.mem.cells {
 		keys = append(keys, k)
